@@ -19,6 +19,7 @@ CONFIGS = {
     'O3':     ['g++', '-std=c++17', '-O3', '-DNDEBUG', '-mno-sse4.2', '-mno-bmi2', '-mno-popcnt', '-pthread'],
     'native': ['g++', '-std=c++17', '-O3', '-DNDEBUG', '-march=native', '-pthread'],
     'sse42':  ['g++', '-std=c++17', '-O2', '-DNDEBUG', '-msse4.2', '-mpopcnt', '-mno-bmi2', '-pthread'],   # hardware popcount, no BMI2
+    'cxx20':  ['g++', '-std=c++20', '-O2', '-DNDEBUG', '-pthread'],      # the headers compiled as C++20 (#if __cplusplus branches)
     'clang':  ['clang++', '-std=c++17', '-O2', '-DNDEBUG', '-pthread'],
 }
 
